@@ -25,6 +25,8 @@ FLOAT_PATTERNS: Dict[str, List[float]] = {
 # values whose float64 mantissa is not float32-representable: any hidden f32 round trip shows as ~1e-8 relative error
 FLOAT_PATTERNS["f64_mantissa"] = [1.0 + 2.0 ** -40, -(1.0 + 2.0 ** -35), 0.1, 1.0 / 3.0, -2.718281828459045, 1e-3 + 1e-15,
                                   0.7 + 2.0 ** -45, -0.3333333333333333, 1.9999999999999996, 0.5 + 2.0 ** -50, 3.141592653589793]
+# several exact zeros next to non-zeros in every reduced slice (derivative rules of products, masked reductions)
+FLOAT_PATTERNS["two_zeros"] = [0.0, 1.5, 0.0, -2.0, 0.5, 0.0, 3.0, 0.0, -0.5]
 QUICK_FLOAT = ("mixed_small", "half_integers", "zeros")
 ALL_FLOAT = tuple(FLOAT_PATTERNS)  # evaluated before f64_mantissa is added below? no: see patterns_for
 
@@ -92,8 +94,10 @@ def patterns_for(dtype, tier: str, extents: Sequence[int] = ()) -> List[Tuple[st
         names = ("f64_mantissa", "mixed_small")
     elif tier == "c04":
         names = ("integers",)
+    elif tier == "c10":
+        names = ("mixed_small", "two_zeros", "half_integers")
     else:
-        names = QUICK_FLOAT if tier == "quick" else tuple(n for n in ALL_FLOAT if n != "f64_mantissa")
+        names = QUICK_FLOAT if tier == "quick" else tuple(n for n in ALL_FLOAT if n not in ("f64_mantissa",))
     return [(nm, FLOAT_PATTERNS[nm]) for nm in names]
 
 
